@@ -195,19 +195,19 @@ Fixpoint store_tree (fuel : nat) (id : N) (t : vtree) : M unit :=
   | S f =>
     cl <- get_cell id ;;
     match t, c_val cl with
-    | VInt z, _ => set_cell_val id (PInt z)
-    | VReal r, _ => set_cell_val id (PReal r)
-    | VBool b, _ => set_cell_val id (PBool b)
-    | VChar ch, _ => set_cell_val id (PChar ch)
-    | VStr s, _ => set_cell_val id (PStr s)
-    | VDate d m y, _ => set_cell_val id (PDate d m y)
-    | VEnum tn _ i, _ => set_cell_val id (PEnum tn i)
+    | VInt z, PInt _ => set_cell_val id (PInt z)
+    | VReal r, PReal _ => set_cell_val id (PReal r)
+    | VBool b, PBool _ => set_cell_val id (PBool b)
+    | VChar ch, PChar _ => set_cell_val id (PChar ch)
+    | VStr s, PStr _ => set_cell_val id (PStr s)
+    | VDate d m y, PDate _ _ _ => set_cell_val id (PDate d m y)
+    | VEnum tn _ i, PEnum _ _ => set_cell_val id (PEnum tn i)
     | VPtr, _ => ret Datatypes.tt
     | VRec _ fs ars, PRec _ rc =>
       cx <- get_ctx rc ;;
       zipM (fun (nv : str * N) (t' : vtree) => store_tree f (snd nv) t') (x_vars cx) fs ;;;
       zipM (fun (na : str * N) (ts : list vtree) =>
               a <- get_arr (snd na) ;; zipM (fun (e : N) (t' : vtree) => store_tree f e t') (a_elems a) ts) (x_arrs cx) ars
-    | VRec _ _ _, _ => crash "cell payload disagrees with its type"
+    | _, _ => crash "cell payload disagrees with its type"      (* Value::load reads into the object that is there: a loaded value has its class *)
     end
   end.
